@@ -132,9 +132,13 @@ func genUToks(t *rapid.T, depth int, out []UTok, lead string) []UTok {
 func GenUSem(t *rapid.T) USemCase {
 	c := USemCase{Pos: rapid.IntRange(0, 4).Draw(t, "pos"), Tail: genWS(t, "tail"), Method: rapid.IntRange(0, 2).Draw(t, "method") == 0}
 	c.Toks = genUToks(t, 0, nil, genWS(t, "lead"))
-	c.Reads = rapid.IntRange(0, len(c.Toks)).Draw(t, "reads")
-	c.Last = rapid.IntRange(0, 2).Draw(t, "last")
 	c.Peek = rapid.Bool().Draw(t, "peek")
+	if c.Peek && len(c.Toks) > 2 {
+		c.Reads = rapid.IntRange(0, len(c.Toks)-2).Draw(t, "reads-before-peek") // leave something inside the value to look at
+	} else {
+		c.Reads = rapid.IntRange(0, len(c.Toks)).Draw(t, "reads")
+	}
+	c.Last = rapid.IntRange(0, 2).Draw(t, "last")
 	return c
 }
 
